@@ -130,10 +130,24 @@ class Path:
     def choose(self, options, label=""):
         """options: list of (name, constraint|True).  Returns the index chosen on this path; only feasible options are
         explored.  The choice is recorded so that the driver can enumerate siblings."""
-        feas = []
-        for i, (nm, c) in enumerate(options):
-            if c is True or (c is not False and self.sat(c)):
-                feas.append(i)
+        # the feasible options of a decision point are computed once per fork and reused when the path prefix is
+        # re-executed for a sibling: a solver time-out that falls differently between two runs (busy machine) can then
+        # neither skip an option nor make the replay diverge
+        cache = getattr(self.eng, "feas_cache", None)
+        key = tuple(t[0] for t in self.taken)
+        hit = cache.get(key) if cache is not None else None
+        feas = None
+        if hit is not None:
+            if hit[0] != (label, len(options)):
+                raise Limitation(f"re-execution reached a different decision point ({label} instead of {hit[0][0]})")
+            feas = hit[1]
+        if feas is None:
+            feas = []
+            for i, (nm, c) in enumerate(options):
+                if c is True or (c is not False and self.sat(c)):
+                    feas.append(i)
+            if cache is not None:
+                cache[key] = ((label, len(options)), feas)
         if not feas:
             raise PathEnd(f"no feasible option at {label}")
         k = len(self.taken)
@@ -1153,8 +1167,10 @@ class Engine:
             if tag is None:
                 continue
             if isinstance(tag, tuple):            # *args: a tuple of operand tags
-                if "|".join(tag) not in tags:
-                    self.kind_gaps.add((q, name, "(" + ", ".join(tag) + ")"))
+                import itertools
+                alts = [("str0", "str1", "str2") if t == "str" else (t.split(":")[0],) for t in tag]
+                if any("|".join(combo) not in tags for combo in itertools.product(*alts)):
+                    self.kind_gaps.add((q, name, f"{len(tag)} operands"))
                 continue
             ok = tag in tags or (tag in ("str0", "str1", "str2") and "str" in tags) or \
                 (tag == "str" and all(t in tags for t in ("str0", "str1", "str2"))) or \
@@ -1601,7 +1617,7 @@ class Engine:
             env = self.bind_args(init, [None] + list(args), kwargs, fr, path)
             env.pop("self", None)
             return self.apply_contract(FakeFi(f"new:{ci.module.name}.{ci.name}", init), c, env, fr, path)
-        if args and not ci.name.startswith("_") and all(_is_concrete(a, path) for a in list(args) + list(kwargs.values())):
+        if not ci.name.startswith("_") and all(_is_concrete(a, path) for a in list(args) + list(kwargs.values())):
             # a public constructor applied to constants: the real code is run on them (concrete execution)
             g = self.concrete_construct(ci, args, kwargs, fr, path)
             if g is not None:
